@@ -431,6 +431,72 @@ def _receiver_is_metadata(st, i, body_open):
     return False
 
 
+def rw_flatten_results(text, log):
+    """R21 (automatic): a `for` loop over `ITER.flatten()` / `ITER.filter_map(|e| e.ok())` / `ITER.filter_map(Result::ok)` is the loop over ITER
+    whose body runs for the `Ok` items only:   for X in ITER { match X { Ok(X) => { BODY } Err(_) => {} } }   (definition of `flatten` over an
+    iterator of `Result`s).  The contracts speak about the items ITER delivers, errors included, so the desugared form is what they are checked
+    against.  Newlines are preserved."""
+    n = 0
+    while True:
+        st = rtok.sig(rtok.lex(text))
+        hit = None
+        for i in range(len(st) - 6):
+            if st[i][1] != 'for' or st[i + 1][0] != 'ident' or st[i + 2][1] != 'in' or st[i - 1][1] in ('.', '::'):
+                continue
+            # find the body `{` of this loop: first `{` at depth 0 after `in`
+            j = i + 3
+            d = 0
+            while j < len(st):
+                u = st[j][1]
+                if u in ('(', '['):
+                    d += 1
+                elif u in (')', ']'):
+                    d -= 1
+                elif u == '{' and d == 0:
+                    break
+                j += 1
+            if j >= len(st):
+                continue
+            # adapter directly before the body?
+            k = j - 1
+            span = None
+            if st[k][1] == ')' and st[k - 1][1] == '(' and st[k - 2][1] == 'flatten' and st[k - 3][1] == '.':
+                span = (k - 3, k)
+            elif st[k][1] == ')':
+                o = k
+                dd = 0
+                while o > i:
+                    if st[o][1] == ')':
+                        dd += 1
+                    elif st[o][1] == '(':
+                        dd -= 1
+                        if dd == 0:
+                            break
+                    o -= 1
+                if st[o - 1][1] == 'filter_map' and st[o - 2][1] == '.':
+                    inner = [x[1] for x in st[o + 1:k]]
+                    if inner == ['Result', '::', 'ok'] or (len(inner) == 8 and inner[0] == '|' and inner[2] == '|' and inner[3] == inner[1] and inner[4:] == ['.', 'ok', '(', ')']):
+                        span = (o - 2, k)
+            if span:
+                hit = (i, j, span)
+                break
+        if hit is None:
+            break
+        i, j, (a, b) = hit
+        x = st[i + 1][1]
+        close = rtok.match_close(st, j)
+        pieces = [
+            (st[a][2], st[b][3], ''),
+            (st[j][3], st[j][3], ' match %s { Ok(%s) => {' % (x, x)),
+            (st[close][2], st[close][2], '} Err(_vx_e) => {} } '),
+        ]
+        text = _replace_spans(text, pieces)
+        n += 1
+    if n:
+        log.append('R21 %d loop(s) over `.flatten()` / `.filter_map(|e| e.ok())` of an iterator of Results desugared to a `match` on each item' % n)
+    return text
+
+
 def rw_closure_underscore(text, log):
     """R15 (automatic): closure parameter `|_|` -> `|_e|` (Verus rejects `_` closure parameters)"""
     st = rtok.sig(rtok.lex(text))
@@ -905,7 +971,7 @@ def build_fn(fs, repo, effectful, table_keys, canary=False):
         within = fs.slice.get('within')
         wscope, _, wname = within.rpartition('::')
         outer = extract.find_fn(src, wscope.strip() or None, wname.strip())
-        otext = outer['text']
+        otext = rw_flatten_results(outer['text'], log)
         ost = rtok.sig(rtok.lex(otext))
         body_open = next(i for i, t in enumerate(ost) if t[1] == '{')
         body_close = rtok.match_close(ost, body_open)
@@ -951,7 +1017,7 @@ def build_fn(fs, repo, effectful, table_keys, canary=False):
         sliced = True
     else:
         it = extract.find_fn(src, fs.scope, fs.name if not fs.rename else fs.fid.split('::')[-1])
-        text = it['text']
+        text = rw_flatten_results(it['text'], log)
         g.shape = driver_fn_shape(text)
         if getattr(fs, 'renamed_note', None):
             log.append(fs.renamed_note)
